@@ -7,8 +7,9 @@ gnpy/core/elements.py `Edfa.interpol_params`: `self.effective_gain = min(self.ef
 Two layers:
 * the pipeline as a function: every request's result is `computeOne settings request`; only the slot assignment is
   a fold over the batch;
-* a stateful amplifier machine showing what the per-request deep copy protects against: an `Edfa` keeps the gain it
-  was clamped to, so without the copy a saturating request changes what the next request sees.
+* a stateful amplifier machine: the repaired `Edfa` clamps from its SET gain on every call (a call leaves only the last
+  effective gain behind, which nothing reads); the counter-model `callLeaky` keeps the gain it was clamped to, so that
+  without the per-request copy a saturating request changed what the next request saw.
 -/
 namespace Gnpy.Plan
 
@@ -109,43 +110,70 @@ def selectAllClamping (p : NliParams) : List Nat → NliParams × List (Except S
 section machine
 variable {α : Type} [Add α] [Sub α] [LE α] [DecidableLE α]
 
-/-- run-time state of an amplifier -/
+/-- an amplifier: the SET gain (constructor / design / user assignment: `effective_gain` setter records `_set_gain`), the gain
+of the last call (`_effective_gain`, what `effective_gain` reads) and `p_max` -/
 structure Edfa (α : Type) where
+  setGain : α
   effGain : α
   pMax : α
 
-/-- `Edfa.interpol_params`: `effective_gain = min(effective_gain, p_max − pin_db)` — written back to the object —
-and the (flat, noiseless) output power `pin + effective_gain` -/
+/-- `Edfa.interpol_params` (as repaired): `self._effective_gain = min(self._set_gain, p_max − pin_db)` — the clamp always starts
+from the SET gain — and the (flat, noiseless) output power `pin + effective_gain` -/
 def Edfa.call (e : Edfa α) (pinDb : α) : Edfa α × α :=
+  let g := if e.setGain ≤ e.pMax - pinDb then e.setGain else e.pMax - pinDb
+  ({ e with effGain := g }, pinDb + g)
+
+/-- COUNTER-MODEL, the behaviour before the repair: `effective_gain = min(effective_gain, p_max − pin_db)`, the clamp starts
+from the gain the PREVIOUS call left behind.  Kept to document why the per-request deep copy was needed. -/
+def Edfa.callLeaky (e : Edfa α) (pinDb : α) : Edfa α × α :=
   let g := if e.effGain ≤ e.pMax - pinDb then e.effGain else e.pMax - pinDb
   ({ e with effGain := g }, pinDb + g)
 
+/-- successive calls of ONE amplifier object: final state and the output of every call -/
+def callSeqWith (call : Edfa α → α → Edfa α × α) : Edfa α → List α → Edfa α × List α
+  | e, [] => (e, [])
+  | e, p :: ps =>
+    let (e1, o) := call e p
+    let (e2, os) := callSeqWith call e1 ps
+    (e2, o :: os)
+
 /-- a line: spans of (loss in dB, amplifier); a request is the total power (dBm) it launches -/
-def propagate : List (α × Edfa α) → α → List (α × Edfa α) × α
+def propagateWith (call : Edfa α → α → Edfa α × α) : List (α × Edfa α) → α → List (α × Edfa α) × α
   | [], p => ([], p)
   | (loss, e) :: rest, p =>
-    let (e', p1) := e.call (p - loss)
-    let (rest', p2) := propagate rest p1
+    let (e', p1) := call e (p - loss)
+    let (rest', p2) := propagateWith call rest p1
     ((loss, e') :: rest', p2)
 
-/-- what `compute_path_with_disjunction` does: propagate on a deep copy; the network is returned as it was -/
+/-- a batch WITH the per-request copy (`compute_path_with_disjunction`: propagate on a deep copy; the network is returned as it
+was) -/
+def planCopyWith (call : Edfa α → α → Edfa α × α) (net : List (α × Edfa α)) : List α → List (α × Edfa α) × List α
+  | [] => (net, [])
+  | p :: ps =>
+    let r := (propagateWith call net p).2
+    let (net2, rs) := planCopyWith call net ps
+    (net2, r :: rs)
+
+/-- a batch WITHOUT the copy: the amplifier objects thread from one request to the next -/
+def planSharedWith (call : Edfa α → α → Edfa α × α) (net : List (α × Edfa α)) : List α → List (α × Edfa α) × List α
+  | [] => (net, [])
+  | p :: ps =>
+    let (net1, r) := propagateWith call net p
+    let (net2, rs) := planSharedWith call net1 ps
+    (net2, r :: rs)
+
+/-- the code as repaired -/
+def propagate (net : List (α × Edfa α)) (p : α) := propagateWith Edfa.call net p
 def propagateOnCopy (net : List (α × Edfa α)) (p : α) : List (α × Edfa α) × α := (net, (propagate net p).2)
+def planCopy (net : List (α × Edfa α)) (ps : List α) := planCopyWith Edfa.call net ps
+def planShared (net : List (α × Edfa α)) (ps : List α) := planSharedWith Edfa.call net ps
+def callSeq (e : Edfa α) (ps : List α) := callSeqWith Edfa.call e ps
+/-- the counter-model -/
+def planCopyLeaky (net : List (α × Edfa α)) (ps : List α) := planCopyWith Edfa.callLeaky net ps
+def planSharedLeaky (net : List (α × Edfa α)) (ps : List α) := planSharedWith Edfa.callLeaky net ps
 
-/-- a batch WITH the per-request copy -/
-def planCopy (net : List (α × Edfa α)) : List α → List (α × Edfa α) × List α
-  | [] => (net, [])
-  | p :: ps =>
-    let (net1, r) := propagateOnCopy net p
-    let (net2, rs) := planCopy net1 ps
-    (net2, r :: rs)
-
-/-- a batch WITHOUT the copy: the amplifiers' state threads from one request to the next -/
-def planShared (net : List (α × Edfa α)) : List α → List (α × Edfa α) × List α
-  | [] => (net, [])
-  | p :: ps =>
-    let (net1, r) := propagate net p
-    let (net2, rs) := planShared net1 ps
-    (net2, r :: rs)
+/-- the settings of a line: losses, set gains and p_max (NOT the gain of the last call) -/
+def settingsOf (net : List (α × Edfa α)) : List (α × α × α) := net.map (fun x => (x.1, x.2.setGain, x.2.pMax))
 
 end machine
 end Gnpy.Plan
